@@ -54,12 +54,6 @@ Definition fixed_table : ns := map fx (pinned_builtins ++ attrs_objects).
 Definition shape (e : string * binding) : Prop :=
   In e fixed_table \/ exists r f, e = hp r f.
 
-Definition wf_entry (e : string * binding) : Prop :=
-  In e fixed_table \/ exists r f, e = hp r f /\ name_guard r f = true.
-
-Lemma wf_shape e : wf_entry e -> shape e.
-Proof. intros [H|(r & f & H & _)]; [now left | right; eauto]. Qed.
-
 Lemma fixed_table_names e : In e fixed_table -> In (fst e) fixed_names.
 Proof.
   assert (X : forallb (fun e => mem_str (fst e) fixed_names) fixed_table = true) by (vm_compute; reflexivity).
@@ -89,15 +83,15 @@ Proof.
   rewrite forallb_forall in X. intros H. apply negb_true_iff. now apply X.
 Qed.
 
-Lemma wf_functional e1 e2 : wf_entry e1 -> wf_entry e2 -> fst e1 = fst e2 -> snd e1 = snd e2.
+Lemma shape_functional e1 e2 : shape e1 -> shape e2 -> fst e1 = fst e2 -> snd e1 = snd e2.
 Proof.
-  intros [H1|(r1 & f1 & -> & G1)] [H2|(r2 & f2 & -> & G2)] E.
+  intros [H1|(r1 & f1 & ->)] [H2|(r2 & f2 & ->)] E.
   - now apply fixed_table_functional.
   - exfalso. apply fixed_table_names in H1. rewrite E in H1. cbn in H1.
     exact (helper_not_fixed_l _ _ H1).
   - exfalso. apply fixed_table_names in H2. rewrite <- E in H2. cbn in H2.
     exact (helper_not_fixed_l _ _ H2).
-  - cbn in E. destruct (helper_names_injective_l _ _ _ _ G1 G2 E) as [-> ->]. reflexivity.
+  - cbn in E. destruct (helper_names_injective_l _ _ _ _ E) as [-> ->]. reflexivity.
 Qed.
 
 Lemma fx_in_table n : In n (pinned_builtins ++ attrs_objects) -> In (fx n) fixed_table.
@@ -137,7 +131,7 @@ Qed.
 
 Lemma init_globs_shape k e :
   In e (init_globs k) ->
-  In e fixed_table \/ exists r f, e = hp r f /\ is_prefix_role r = true.
+  shape e.
 Proof.
   unfold init_globs, init_named, init_fixed. rewrite !in_app_iff.
   intros [[H|H]|[H|H]].
@@ -151,43 +145,6 @@ Proof.
   - destruct (needs_cached_setattr _ _); [|destruct H]. destruct H as [<-|[]]. left; fx_tab.
 Qed.
 
-Lemma prefix_role_guard r f : is_prefix_role r = true -> name_guard r f = true.
-Proof. destruct r; intros H; try discriminate; reflexivity. Qed.
-
-Lemma naming_guard_field s a :
-  naming_guard s = true -> In a (attrs_of s) ->
-  (h_repr s = true -> has_custom_repr s a = true -> name_guard RRepr (a_name a) = true) /\
-  (registers_key s a = true -> name_guard RKey (a_name a) = true).
-Proof.
-  unfold naming_guard. rewrite forallb_forall. intros G Ha. specialize (G _ Ha).
-  apply andb_true_iff in G as [G1 G2]. split.
-  - intros H1 H2. rewrite H1, H2 in G1. exact G1.
-  - intros H. rewrite H in G2. exact G2.
-Qed.
-
-Lemma layers_wf s e : naming_guard s = true -> In e (attrs_layers s) -> wf_entry e.
-Proof.
-  intros G H. unfold attrs_layers in H. apply in_app_iff in H as [H|H].
-  - left. now apply pinned_ns_table.
-  - apply in_snippets in H as (m & Hm & H). destruct m; cbn [snippet_globs generated] in *.
-    + unfold repr_globs in H. apply in_app_iff in H as [H|H].
-      * apply in_flat_map in H as (a & Ha & H). destruct (has_custom_repr s a) eqn:C; [|destruct H].
-        destruct H as [<-|[]]. right. exists RRepr, (a_name a). split; [reflexivity|].
-        now apply (naming_guard_field s a G Ha).
-      * destruct H as [<-|[<-|[<-|[]]]]; left; fx_tab.
-    + apply (key_globs_wf (fun _ => True)) in H as (a & Ha & K & ->).
-      unfold eq_fields in Ha. apply filter_In in Ha as [Ha E].
-      right. exists RKey, (a_name a). split; [reflexivity|].
-      apply (naming_guard_field s a G Ha). unfold registers_key. rewrite K, Hm, E. reflexivity.
-    + apply (key_globs_wf (fun _ => True)) in H as (a & Ha & K & ->).
-      unfold hash_fields in Ha. apply filter_In in Ha as [Ha E].
-      right. exists RKey, (a_name a). split; [reflexivity|].
-      apply (naming_guard_field s a G Ha). unfold registers_key. rewrite K, Hm, E.
-      cbn. apply orb_true_r.
-    + apply init_globs_shape in H as [H|(r & f & -> & Hr)]; [now left|].
-      right. exists r, f. split; [reflexivity | now apply prefix_role_guard].
-Qed.
-
 Lemma layers_shape s e : In e (attrs_layers s) -> shape e.
 Proof.
   intros H. unfold attrs_layers in H. apply in_app_iff in H as [H|H].
@@ -199,13 +156,14 @@ Proof.
       * destruct H as [<-|[<-|[<-|[]]]]; left; fx_tab.
     + apply (key_globs_wf (fun _ => True)) in H as (a & _ & _ & ->). right. eauto.
     + apply (key_globs_wf (fun _ => True)) in H as (a & _ & _ & ->). right. eauto.
-    + apply init_globs_shape in H as [H|(r & f & -> & _)]; [now left | right; eauto].
+    + now apply init_globs_shape in H.
 Qed.
 
+(** No two entries of the attrs layers bind one name to different objects: the naming
+    scheme is injective and apart from the fixed names. *)
 Lemma layers_functional s e1 e2 :
-  naming_guard s = true -> In e1 (attrs_layers s) -> In e2 (attrs_layers s) ->
-  fst e1 = fst e2 -> snd e1 = snd e2.
-Proof. intros G H1 H2. apply wf_functional; now apply (layers_wf s). Qed.
+  In e1 (attrs_layers s) -> In e2 (attrs_layers s) -> fst e1 = fst e2 -> snd e1 = snd e2.
+Proof. intros H1 H2. apply shape_functional; now apply (layers_shape s). Qed.
 
 (** ** Every free name is registered by attrs (no guard needed) *)
 
@@ -468,7 +426,7 @@ Proof.
     rewrite !mem_str_app. apply orb_false_iff. split; [|apply orb_false_iff; split].
     + apply shape_not_simple_local; [assumption|]. intros x [<-|[]]. cbn; tauto.
     + (* aliases: the alias guard *)
-      unfold guard in G. apply andb_true_iff in G as [_ G]. unfold alias_guard in G.
+      unfold guard, alias_guard in G.
       rewrite E in G. rewrite forallb_forall in G.
       destruct (mem_str (fst e) (aliases sc)) eqn:M; [exfalso | reflexivity].
       apply mem_str_In in M. specialize (G _ M). apply negb_true_iff in G.
@@ -495,10 +453,9 @@ Proof.
   unfold resolve.
   assert (LC := locals_clear s m st (n, b) G Hm Hr He). cbn [fst] in LC. rewrite LC.
   rewrite assemble_layers, lookup_last_app.
-  assert (NG : naming_guard s = true) by (unfold guard in G; now apply andb_true_iff in G as [G _]).
   rewrite (lookup_last_functional n (attrs_layers s) b He).
   - reflexivity.
-  - intros b2 H2. exact (layers_functional s (n, b2) (n, b) NG H2 He eq_refl).
+  - intros b2 H2. exact (layers_functional s (n, b2) (n, b) H2 He eq_refl).
 Qed.
 
 (** The object attrs means is never something the module bound. *)
@@ -584,36 +541,13 @@ Lemma hermetic_buggy_builtins_entry_refuted_l :
   = RBuiltins (Some (BModule 3)) "hash".
 Proof. reflexivity. Qed.
 
-(** K13: without the naming guard a helper of one field replaces that of another. *)
-Definition k13_spec : hspec :=
-  mk_spec [mk_attr "__attr_factory" DNothing None None CNone true "attr_factory";
-           mk_attr "repr" (DFactory "f" false) None None CNone true "repr"] ["__attr_factory"].
-
-Lemma hermetic_naming_unguarded_refuted_l :
-  naming_guard k13_spec = false /\ alias_guard k13_spec = true /\
-  In (Body, "__attr_factory_repr", BHelper RRepr "__attr_factory") (free_refs k13_spec MRepr) /\
-  resolve (assemble [] k13_spec) (locals_at k13_spec MRepr Body) "__attr_factory_repr"
-  = RGlobal (BHelper RFactory "repr").
-Proof. repeat split. vm_compute. tauto. Qed.
-
-Definition k13b_spec : hspec :=
-  mk_spec [mk_attr "_attr_converter_b" DNothing None (Some "k") CNone true "attr_converter_b";
-           mk_attr "b_key" DNothing None None (CPlain "c" false) true "b_key"] [].
-
-Lemma hermetic_naming_unguarded_refuted2_l :
-  naming_guard k13b_spec = false /\ alias_guard k13b_spec = true /\
-  In (Body, "__attr_converter_b_key", BHelper RKey "_attr_converter_b") (free_refs k13b_spec MEq) /\
-  resolve (assemble [] k13b_spec) (locals_at k13b_spec MEq Body) "__attr_converter_b_key"
-  = RGlobal (BHelper RConverter "b_key").
-Proof. repeat split. vm_compute. tauto. Qed.
-
 (** K9: an init parameter named like something [__init__] uses shadows it. *)
 Definition k9_spec : hspec :=
   mk_spec [mk_attr "x" DNothing None None CNone true "attr_dict";
            mk_attr "y" DValue None None CNone false "y"] [].
 
 Lemma hermetic_alias_unguarded_refuted_l :
-  naming_guard k9_spec = true /\ alias_guard k9_spec = false /\
+  guard k9_spec = false /\
   In (Body, "attr_dict", BAttrs "attr_dict") (free_refs k9_spec MInit) /\
   resolve (assemble [] k9_spec) (locals_at k9_spec MInit Body) "attr_dict" = RLocal.
 Proof. repeat split. vm_compute. tauto. Qed.
